@@ -273,7 +273,7 @@ var subAdversarial = vk.Register(&vk.Sub[Case]{Name: "adversarial", Gen: genAdve
 
 func TestSub_sequence(t *testing.T) {
 	maxOrder := vk.Pick(9, 11)
-	vk.RunEnum(t, subSequence, fmt.Sprintf("De Bruijn sequences of orders 1..%d (every n-mer counted in a 4^n-bit map); unconstrained barcode lists for orders 2..8 x lengths n..60", maxOrder), true, func(yield func(Case) bool) {
+	vk.RunEnum(t, subSequence, fmt.Sprintf("De Bruijn sequences of orders 1..%d (every n-mer counted in a 4^n-bit map); unconstrained barcode lists for orders 2..8 x lengths n..60; each homopolymer of n and of n-1 letters as the only ban x orders 2..8 x lengths n, n+1, 20, 58", maxOrder), true, func(yield func(Case) bool) {
 		for n := 1; n <= maxOrder; n++ {
 			if !yield(Case{Kind: "sequence", Order: n}) {
 				return
@@ -283,6 +283,19 @@ func TestSub_sequence(t *testing.T) {
 			for l := n; l <= 60; l++ {
 				if !yield(Case{Kind: "barcodes", Order: n, Length: l}) {
 					return
+				}
+			}
+		}
+		// the four homopolymers as bans - the words at the ends of every numbering of words - at the longest length at
+		// which the sequence of that order contains them, and one shorter
+		for n := 2; n <= 8; n++ {
+			for _, letter := range "ACGT" {
+				for _, k := range []int{n, n - 1} {
+					for _, l := range []int{n, n + 1, 20, 58} {
+						if k >= 2 && !yield(Case{Kind: "barcodes", Order: n, Length: l, Bans: []string{strings.Repeat(string(letter), k)}}) {
+							return
+						}
+					}
 				}
 			}
 		}
@@ -348,6 +361,9 @@ func gen(t *rapid.T) Case {
 	nb := rapid.IntRange(0, 5).Draw(t, "n_bans")
 	for i := 0; i < nb; i++ {
 		c.Bans = append(c.Bans, genWord(t, fmt.Sprintf("ban%d", i), 2, 8))
+		if rapid.IntRange(0, 7).Draw(t, fmt.Sprintf("ban%d_homopolymer", i)) == 0 {
+			c.Bans[i] = strings.Repeat(c.Bans[i][:1], len(c.Bans[i]))
+		}
 	}
 	nf := rapid.IntRange(0, 3).Draw(t, "n_filters")
 	for i := 0; i < nf; i++ {
